@@ -45,6 +45,8 @@ type purgeCase struct {
 	RefDeleted  []string `json:"refDeleted"`
 	Needed      []string `json:"needed"`
 	Exact       bool     `json:"exact"`
+	Incremental bool     `json:"incremental"`
+	Index2      []string `json:"index2"`
 }
 
 // purge fixture: f1 = A|B1, f2 = A|B2 (they share the full leaf A), f3 = C
@@ -76,8 +78,12 @@ func newPurgeFixture(e *metaEnv) *purgeFixture {
 		"f2": append(append([]byte{}, a...), blk('2', 10)...),
 		"f3": blk('3', 10),
 	}, keyOf: map[string]string{}, absOf: map[string]string{},
-		files: map[string][]string{"b1": {"f1"}, "b2": {"f1", "f2"}, "b3": {"f3"}, "b4": {"f3"}},
-		ids:   map[string]int{"b1": 1, "b2": 2, "b3": 3, "b4": 4}}
+		files: map[string][]string{"b1": {"f1"}, "b2": {"f1", "f2"}, "b3": {"f3"}, "b4": {"f3"},
+			"b5": {"f4", "f5", "f6", "f7", "f8", "f9"}},
+		ids: map[string]int{"b1": 1, "b2": 2, "b3": 3, "b4": 4, "b5": 5}}
+	for n := 4; n <= 9; n++ {
+		f.content[fmt.Sprintf("f%d", n)] = blk(byte('0'+n), 10)
+	}
 	set := func(abs string, k string) { f.keyOf[abs] = k; f.absOf[k] = abs }
 	lA := treeKey(a, uint32(lam), 0, 1, false)
 	set("l12", lA.String())
@@ -88,10 +94,12 @@ func newPurgeFixture(e *metaEnv) *purgeFixture {
 		root := treeKey(append(append([]byte{}, lA[:]...), lt[:]...), uint32(lam), 1, 0, true)
 		set([]string{"r1", "r2"}[i], root.String())
 	}
-	l3 := treeKey(f.content["f3"], uint32(lam), 0, 0, true)
-	set("l3", l3.String())
-	r3 := treeKey(l3[:], uint32(lam), 1, 0, true)
-	set("r3", r3.String())
+	for n := 3; n <= 9; n++ {
+		ln := treeKey(f.content[fmt.Sprintf("f%d", n)], uint32(lam), 0, 0, true)
+		set(fmt.Sprintf("l%d", n), ln.String())
+		rn := treeKey(ln[:], uint32(lam), 1, 0, true)
+		set(fmt.Sprintf("r%d", n), rn.String())
+	}
 	return f
 }
 
@@ -281,6 +289,26 @@ func purgeReplay(args []string) error {
 			}
 			visible[b] = gen[b]
 		}
+		if c.Incremental && success && len(c.Between) > 0 {
+			// the complete index is extended by a resumed build (no crash, no fault)
+			r.Steps++
+			if err := build(true, -1, "none"); err != nil {
+				success = false
+			}
+			c.Index = c.Index2
+			c.RefDeleted = nil
+			for _, k := range c.BlobsBefore {
+				in := false
+				for _, x := range c.Index2 {
+					if x == k {
+						in = true
+					}
+				}
+				if !in {
+					c.RefDeleted = append(c.RefDeleted, k)
+				}
+			}
+		}
 		idx, nchunks := fx.indexKeys()
 		if success && c.Exact {
 			exp := sortedStrings(c.Index)
@@ -356,8 +384,8 @@ func purgeReplay(args []string) error {
 						needNew["r1"], needNew["l1"], needNew["l12"] = true, true, true
 					case "f2":
 						needNew["r2"], needNew["l2"], needNew["l12"] = true, true, true
-					case "f3":
-						needNew["r3"], needNew["l3"] = true, true
+					default:
+						needNew["r"+name[1:]], needNew["l"+name[1:]] = true, true
 					}
 				}
 			}
